@@ -2,6 +2,7 @@ package mongokit
 
 import (
 	"fmt"
+	"math"
 	"sort"
 	"strconv"
 	"strings"
@@ -530,6 +531,8 @@ func applyPush(ctx Context, doc bsonkit.Doc, name, path string, v interface{}) e
 			if int(s) < len(newArr) {
 				newArr = newArr[:int(s)]
 			}
+		case s == math.MinInt64:
+			// -s overflows: all elements are within the window
 		default: // s < 0
 			keep := -int(s)
 			if keep < len(newArr) {
